@@ -9,3 +9,4 @@ import AikenVerif.Props.C11
 import AikenVerif.Props.C12
 import AikenVerif.Props.C18
 import AikenVerif.Props.C19
+import AikenVerif.Props.C13
